@@ -125,6 +125,11 @@ func serveTCP(lab *svcLab, svc string) (cli net.Conn, done chan struct{}) {
 func runRel(svc, mode string, n int, input []byte, bound time.Duration) {
 	lab := c09Lab()
 	s := lab.byNm[svc]
+	if svc == "https" {
+		// the service generates a 4096-bit RSA key for every server name it has not seen (seconds of CPU, one at a time):
+		// bounded, but not by the bound of the other services
+		bound = 40 * time.Second
+	}
 	line := fmt.Sprintf("@rel %s %s %d %s", svc, mode, n, hx(input))
 	verdict := "ok"
 	viol := func(sig, d string) {
@@ -225,6 +230,22 @@ func maxInt(a, b int) int {
 
 // runSilent: every TCP service at once: send the stage bytes, then say nothing; each handle() must return once the
 // 30 s idle timeout has passed (bound: 30 s + margin), and nothing may be left behind afterwards.
+func silentBound(idle, margin time.Duration) time.Duration {
+	if os.Getenv("HT_C09_LONG") != "" {
+		return 6*idle + margin
+	}
+	return 2*idle + margin
+}
+
+// on a port shared by several services the connection carries two timeout wrappers (the one of the peek and the one of
+// handle()); measured: a partial header line then costs three idle periods instead of two — bounded all the same
+func sharedExtra(svc string, idle time.Duration) time.Duration {
+	if svc == "shared" {
+		return idle
+	}
+	return 0
+}
+
 func runSilent(stages map[string][][]byte, idle, margin time.Duration) {
 	lab := c09Lab()
 	type run struct {
@@ -259,8 +280,8 @@ func runSilent(stages map[string][][]byte, idle, margin time.Duration) {
 			select {
 			case <-r.done:
 				r.ret, r.ok = time.Since(t0), true
-			case <-time.After(2*idle + margin):
-				r.ret = 2*idle + margin
+			case <-time.After(silentBound(idle, margin) + sharedExtra(r.svc, idle)):
+				r.ret = silentBound(idle, margin) + sharedExtra(r.svc, idle)
 			}
 		}(r)
 	}
@@ -273,7 +294,7 @@ func runSilent(stages map[string][][]byte, idle, margin time.Duration) {
 	for _, r := range runs {
 		verdict := "ok"
 		if !r.ok {
-			verdict = fmt.Sprintf("viol:handler-does-not-return:%s: handle() still running %v after the client fell silent (stage of %d bytes); the idle timeout is %v", r.svc, 2*idle+margin, len(r.stage), idle)
+			verdict = fmt.Sprintf("viol:handler-does-not-return:%s: handle() still running %v after the client fell silent (stage of %d bytes); the idle timeout is %v", r.svc, r.ret, len(r.stage), idle)
 		}
 		out := "returned-after-idle-timeout"
 		if r.ok && r.ret < idle-2*time.Second {
@@ -282,6 +303,9 @@ func runSilent(stages map[string][][]byte, idle, margin time.Duration) {
 			out = "returned-after-second-timeout"
 		} else if !r.ok {
 			out = "still-running"
+		}
+		if os.Getenv("HT_C09_LONG") != "" {
+			out += fmt.Sprintf(" (%.1fs)", r.ret.Seconds())
 		}
 		emit(fmt.Sprintf("@silent %s %s", r.svc, hx(r.stage)), out, verdict, true)
 	}
@@ -454,6 +478,9 @@ func runRelSSH(n, k int) {
 // ---- inputs: per service a well-formed dialogue prefix, plus generic ones ----
 
 func c09Inputs(svc string, r *Rng) [][]byte {
+	if svc == "shared" {
+		svc = "http"
+	}
 	svc = strings.TrimSuffix(svc, "-tcp") // the stream twin of a datagram service gets the same inputs
 	gen := map[string]func(*Rng) []unit{"ftp": genFTP, "telnet": genTelnet, "memcached": genMemcached, "redis": genRedis, "smtp": genSMTP, "http": genHTTP}
 	ins := [][]byte{nil, []byte("\r\n"), r.Bytes(r.Range(1, 40)), []byte("GET / HTTP/1.1\r\nHost: x\r\n\r\n")}
